@@ -306,7 +306,14 @@ where
             if max.neq(&min).is_true() {
                 let d = max - min;
                 s = if sum.gt(&T::one()).is_true() {
-                    d.clone() / (T::from_f64(2.0) - sum)
+                    // The divisor can be rounded to 0 when the color is next
+                    // to white, where the saturation has no effect.
+                    let divisor = T::from_f64(2.0) - sum;
+                    if divisor.neq(&T::zero()).is_true() {
+                        d.clone() / divisor
+                    } else {
+                        T::zero()
+                    }
                 } else {
                     d.clone() / sum
                 };
@@ -336,8 +343,10 @@ where
             let lightness = T::from_f64(0.5) * &sum;
 
             let chroma = max.clone() - &min;
+            // The divisor can be rounded to 0 when the color is next to white,
+            // where the saturation has no effect.
             let saturation = lazy_select! {
-                if min.eq(&max) => T::zero(),
+                if min.eq(&max) | sum.eq(&T::from_f64(2.0)) => T::zero(),
                 else => chroma.clone() /
                     sum.gt(&T::one()).select(T::from_f64(2.0) - &sum, sum.clone()),
             };
